@@ -56,6 +56,13 @@ CHECKS = {
         text="Same MC_Body universe and random cases as C07: the real ValidateFile/Validate diagnostics are projected to (kind, item path) by subject containment and compared by "
              "TraceBody.tla, as sets without duplicates, with Diags(schema, doc) recomputed by TLC (walker semantics: unknown flag, found/dynamic counters, label checks, deprecations).",
         ref="DESIGN.md 5/C15", technique="TLC model checking of BodyRules.tla + replay of TLC-generated cases + TLC trace validation of real diagnostics (TraceBody)"),
+    "C16": dict(
+        text="(1) TLC enumerates every listing (permutation) of every set of label/attribute dependency keys (MC_Keys, checks that the sort-based mechanism is canonical); the "
+             "harness calls the real schema.NewSchemaKey on each and TraceBody's memo rule decides 'same set <=> same key' over the whole universe. (2) MC_Body in 'dep' mode "
+             "enumerates block schemas with dependent bodies (one/two key labels, attribute keys with literal/default/reference values, second level) x blocks; TLC checks "
+             "DepAgree on the model; the real tokens, hover, targets, origins, validation and links are observed through probe attributes and compared by TraceBody with "
+             "Effective()/LinksP().",
+        ref="DESIGN.md 5/C16", technique="TLC model checking (MC_Keys, MC_Body dep mode) + replay of TLC-generated cases + TLC trace validation (TraceBody: memo rule, probe agreement, LinksP)"),
 }
 
 NOT_YET = {
